@@ -167,6 +167,9 @@ static void auditCompound(int kind, const ADD& d, vf::Case& c, const std::string
       else if (dynamic_cast<const GaussianDiscreteDistribution*>(a)) fam = F_GAUSS;
       else if (dynamic_cast<const ExponentialDiscreteDistribution*>(a)) fam = F_EXPO;
       else if (dynamic_cast<const UniformDiscreteDistribution*>(a)) fam = F_UNIF;
+      // (the compound lattice restricts to a fixed interval whatever the shapes are: a component whose parent puts less mass on it than its
+      //  cumulative function resolves -- 4e-8 absolute, e.g. gamma(100,0.5) on [0,4]: 1e-129 -- has no partition to speak of and is not judged)
+      if (fam >= 0 && !(a->pProb(a->getUpperBound()) - a->pProb(a->getLowerBound()) >= 4e-8)) { c.tag("compound:nested-component-domain-mass-below-cdf-accuracy(not audited)"); fam = -1; }
       if (fam >= 0) { AuditOpt o{a->getNumberOfCategories(), a->median_, a->discretizationScheme_, (Fam)fam}; auditPartition(*a, o, c, ctx + " nested component " + a->getName()); c.tag("compound:nested-component-audited"); }
     }
     bool bad = c.failed; c.failed = before || bad;
